@@ -7,7 +7,7 @@ CONSTANTS
     RhoSeq <- ThoroughRho
     BaseSeq <- ThoroughBase
     MaxExactN = 25
-    MaxChebN = 64
+    MaxChebN = 128
     FamilyDeg = 5
     OutFile = "oned_emitted.json"
 INVARIANT RationalExact
